@@ -76,7 +76,8 @@ def main(tier='quick', seed=0):
         'str.replace(a, b) leaves a string without a unchanged',
         'the conll fragment clause, escapes inside fields and the file-level readers (read_auto: ID lines, category fixes) are decided by the BOUNDED stand-in (never counted as proved)',
     ]
+    assumptions.append('Category.parse(str(c)) = c is used as a contract of depccg/cat.py: its bounded validation (bounded/c05_real.py: every category up to a size, blanks and redundant brackets, the shipped strings) runs inside this check as well')
     extra = dict(functions_under_contract=['depccg/printer/auto.py::auto_of.rec', 'depccg/tools/reader.py::_AutoLineReader.parse_leaf', 'depccg/tools/reader.py::_AutoLineReader.parse_tree',
                                            'depccg/tools/reader.py::_AutoLineReader.next_node (inlined)', 'depccg/tools/reader.py::_AutoLineReader.next (next-lemma, characters)'],
                  bounded_functions=['depccg/printer/conll.py::conll_of (fragments)', 'depccg/tools/reader.py::read_auto', 'depccg/utils.py::denormalize'])
-    return c12.finish_with(PROP, tier, seed, t0, records, errors, extra, assumptions, ['printers_real.py'], level='exploration')
+    return c12.finish_with(PROP, tier, seed, t0, records, errors, extra, assumptions, ['printers_real.py', 'c05_real.py'], level='exploration')
